@@ -56,6 +56,9 @@ def parseEvent (w : World) (i : Nat) (j : Json) : Except String Event := do
                       managed := !(← boolD j "unmanaged" false), ver := i })
   | "claimGone" => pure (.delClaim name)
   | "pod" =>
+    -- `del` (deletionTimestamp set: a gracefully terminating pod) is deliberately NOT read: `podutils.IsTerminal` looks at the
+    -- phase only, at both sites (`fact_pod_release_predicate`), and by the property's text a pod that is still bound and not in a
+    -- terminal phase counts; neither the model nor the specification may depend on it.
     let phase ← strD j "phase"
     let req := resOf (← intListD j "req") false
     let lim := resOf (← intListD j "lm") false
@@ -364,10 +367,73 @@ def history (inp impl : Json) : Except String Resp := do
          why := if !specOk then whyS else whyA,
          extra := some (jObj [("wellFormed", jBool wfRun), ("specPoints", jNat specPoints), ("exemptPoints", jNat exemptPoints)]) }
 
+/-! ## c11.usage: the usage trackers at component level -/
+
+def dedupVols (l : List Vol) : List Vol := l.foldl (fun acc v => if acc.contains v then acc else acc ++ [v]) []
+
+def parseUsageOp (j : Json) : Except String UsageOp := do
+  let t ← strF j "t"
+  match t with
+  | "add" =>
+    let vols ← (← arrD j "vols").mapM (fun v => do pure ((← strF v "d"), (← strF v "x")))
+    let ports ← (← arrD j "ports").mapM parsePort
+    pure (.add { name := (← strF j "k"), node := "", terminal := false, req := Res.zero, lim := Res.zero, ds := false, cost := 0,
+                 ports := ports, vols := dedupVols vols, ver := 0 })
+  | "del" => pure (.del (← strF j "k"))
+  | "copy" => pure .copy
+  | _ => throw s!"bad usage op {t}"
+
+def renderUsage (keys drivers ids : List String) (probes : List (List Vol)) (vols : List Vol) (limits : Map Nat)
+    (ports : Map (List HostPort)) : Json :=
+  let vol := String.ofList (probes.map fun pr => if volExceeds vols limits pr then '1' else '0')
+  let set := drivers.flatMap fun d => (ids.filter fun x => vols.contains (d, x)).map fun x => d ++ "|" ++ x
+  let cnt := drivers.map fun d => volCount vols [] d
+  let hp := hostPortMask ports "zz-probe" :: keys.map (hostPortMask ports)
+  jObj [("vol", jStr vol), ("set", jArr (set.map jStr)), ("cnt", jArr (cnt.map jNat)), ("hp", jArr (hp.map jNat)), ("mut", jArr [])]
+
+/-- model = fold of `usageStep` from `NewNode()` with the given limits; specification = the from-scratch table of the op prefix
+    (`Spec.usageVolumes` / `usagePorts`), evaluated against what the implementation showed after every op; an altered `Add`
+    argument (`mut`) is never allowed. -/
+def usage (inp impl : Json) : Except String Resp := do
+  let ops ← (← arrF inp "ops").mapM parseUsageOp
+  let limJ ← arrD inp "limits"
+  let lims ← limJ.mapM (fun l => do pure ((← strF l "d"), (← intF l "n")))
+  let limits : Map Nat := lims.foldl (fun m (d, n) => if n < 0 then m else m.put d n.toNat) []
+  let keys := sortDedup (ops.filterMap fun o => match o with | .add p => some p.name | .del k => some k | .copy => none)
+  let allVols := ops.flatMap fun o => match o with | .add p => p.vols | _ => []
+  let drivers := sortDedup (lims.map (·.1) ++ allVols.map (·.1))
+  let ids := sortDedup (allVols.map (·.2))
+  let probes := volProbes { pools := [], claims := [], pods := [], drivers := drivers, pvcIDs := ids }
+  let implSteps ← arrF impl "steps"
+  let mut s : SNode := { SNode.new with limits := limits }
+  let mut modelSteps : List Json := []
+  let mut specOk := true
+  let mut why := ""
+  let mut i := 0
+  for o in ops do
+    s := usageStep Fixes.current s o
+    modelSteps := modelSteps ++ [renderUsage keys drivers ids probes s.volumes s.limits s.ports]
+    let pre := ops.take (i + 1)
+    let sv := renderUsage keys drivers ids probes (usageVolumes pre) limits (usagePorts pre)
+    if specOk then
+      match implSteps[i]? with
+      | none =>
+        specOk := false
+        why := s!"op {i}: the implementation reported no step"
+      | some iv =>
+        match diffJson "usage" sv iv with
+        | some d =>
+          specOk := false
+          why := s!"after op {i}: from-scratch table of the tracked pod keys vs implementation: {d}"
+        | none => pure ()
+    i := i + 1
+  pure { model := some (jObj [("steps", jArr modelSteps)]), spec := some specOk, why := why }
+
 def handle : Handler := fun op inp impl =>
   match op with
   | "c11.history" => history inp impl
   | "c11.orders" => history inp impl
+  | "c11.usage" => usage inp impl
   | _ => .error s!"unknown op {op}"
 
 end Karp.Driver.C11
